@@ -70,6 +70,10 @@ func splitElem(v ssa.Value) (string, int64, bool) {
 }
 
 func checkC20(p *Prog, r *Report) {
+	r.rule("C20.id-field: Wrapper.SetID stores through FieldByName(\"ID\") of the wrapped value (the field Check validates by its Go name) and GetID reads the ID from the wrapped value on every call; the Wrapper keeps no ID of its own")
+	checkWrapperID(p, r, "C20")
+	r.rule("C20.get-api-only: where Wrapper.getField (or its search helper) matches the key against a json tag it also tests the field's api tag, so Get only reads fields that belong to the resource")
+	checkGetFieldAPIOnly(p, r, "C20")
 	r.rule(r3RuleText)
 	r.rule("C20.split-arity (precondition coverage): every constant index k into strings.Split(tag(\"api\"), \",\") in Wrap / BuildType is taken under the selector parts[0] == \"rel\", and Check, for fields selected by that very predicate, returns an error when the tag has fewer than k+1 parts; Check runs before the indexing on every path")
 	r.rule("C20.reflect-set: every reflect.Value.Set(x) is justified by a dominating test that x's type is the field's type, or x is the zero value of the receiver's own type, or x is the same-index field of a value of the same struct type; SetString is only applied to the field named ID, whose string kind Check enforces")
